@@ -67,6 +67,14 @@ enum Path {
     RepliesLost, // the receiver hears, its answers are lost
 }
 
+struct Reader {
+    sid: String,
+    topic: String,
+    buf: Arc<std::sync::Mutex<Vec<(u64, String)>>>,
+    task: tokio::task::JoinHandle<()>,
+    open: bool,
+}
+
 struct Reply {
     at: u64,
     link: usize,
@@ -86,6 +94,16 @@ pub struct LoopSim {
     /// subscribers that never read (their queues fill up at once): the loop's 1 Hz stats publish must not wait
     stalled_subs: Vec<tokio::sync::mpsc::Receiver<String>>,
     side: Option<tokio::task::JoinHandle<()>>,
+    /// control clients that do read: each has its own task that stamps every pushed line with the virtual time at
+    /// which it was handed over (the runtime runs that task in the very instant of the publish)
+    readers: Vec<Reader>,
+    hub: Option<srtla_send::subscriptions::SubscriptionHub>,
+    /// the nak schedule: what the receiver got lately (sequence number, link, copies)
+    recent_rx: VecDeque<(u32, usize, u32)>,
+    rx_copies: std::collections::HashMap<u32, u32>,
+    nak_ctr: u64,
+    weak_run: [u32; 8],
+    guard_phase: u8,
     /// our own SIGHUP listener, registered before the loop's: a SIGHUP can never take the default action
     own_hup: tokio::signal::unix::Signal,
     /// the uplinks currently listed in the IP file (indices into 127.0.0.10..13)
@@ -166,6 +184,13 @@ impl LoopSim {
             taps: Default::default(),
             stalled_subs: Vec::new(),
             side: None,
+            readers: Vec::new(),
+            hub: None,
+            recent_rx: VecDeque::new(),
+            rx_copies: Default::default(),
+            nak_ctr: 0,
+            weak_run: [0; 8],
+            guard_phase: 0,
             own_hup,
             listed: Vec::new(),
             work: std::env::temp_dir().to_string_lossy().to_string(), n: 2, profile: "steady".into(),
@@ -194,6 +219,11 @@ impl LoopSim {
             t.abort();
             let _ = self.rt.block_on(t);
         }
+        for r in self.readers.drain(..) {
+            r.task.abort();
+            let _ = self.rt.block_on(r.task);
+        }
+        self.hub = None;
         let mut buf = [0u8; 2048];
         while self.receiver.recv_from(&mut buf).is_ok() {}
         while self.client.recv_from(&mut buf).is_ok() {}
@@ -213,6 +243,100 @@ impl LoopSim {
                 tokio::task::yield_now().await;
             }
         });
+    }
+
+
+    /// a control client that reads: subscribes on the loop's hub and hands every line to its own task
+    fn subscribe_reader(&mut self, topic: &str) -> Value {
+        let hub = self.hub.clone().expect("hub");
+        let (tx, mut rx) = tokio::sync::mpsc::channel::<String>(256);
+        let t = topic.to_string();
+        let sid = self.rt.block_on(async move { hub.subscribe(&t, tx).await });
+        let buf: Arc<std::sync::Mutex<Vec<(u64, String)>>> = Default::default();
+        let b2 = buf.clone();
+        let task = self.rt.spawn(async move {
+            while let Some(line) = rx.recv().await {
+                b2.lock().unwrap().push((vnow(), line));
+            }
+        });
+        self.readers.push(Reader { sid: sid.clone(), topic: topic.to_string(), buf, task, open: true });
+        self.bump("subscriptions_opened");
+        json!({"slot": self.readers.len(), "sid": sid, "topic": topic})
+    }
+
+    /// what a link's entry of a stats snapshot says, as integers
+    fn link_stats(&self, v: &Value) -> Value {
+        let l = v["ip"].as_str().and_then(|s| s.rsplit('.').next()).and_then(|x| x.parse::<i64>().ok()).map(|x| x - 9).unwrap_or(0);
+        let f = |k: &str| v[k].as_f64();
+        let fin = ["rtt_min_ms", "rtt_velocity", "quality_multiplier", "cc_rtt_ewma_ms", "cc_rtt_var_ms", "cc_rtt_min_ms", "cc_loss_ewma"]
+            .iter().all(|k| f(k).is_some_and(|x| x.is_finite()));
+        let i = |k: &str| v[k].as_i64().unwrap_or(-1);
+        let b = |k: &str| v[k].as_bool().unwrap_or(false);
+        let st = match v["cc_state"].as_str().unwrap_or("") {
+            "bootstrap" => "Bootstrap", "climbing" => "Climbing", "holding" => "Holding", "backing_off" => "BackingOff",
+            "drain" => "Drain", _ => "Other",
+        };
+        json!({"l": l, "connected": b("connected"), "timed_out": b("timed_out"), "window": i("window"), "in_flight": i("in_flight"),
+               "rtt": i("rtt_ms"), "nak": i("nak_count"), "bps": i("bitrate_bytes_per_sec"),
+               "qm": (f("quality_multiplier").unwrap_or(-1.0) * 1000.0).round() as i64,
+               "weak": b("weak"), "reason": v["weak_reason"].as_str().unwrap_or("?"), "share": i("weak_share_permille"),
+               "thr": i("weak_threshold_permille"),
+               "st": st, "T": i("cc_target_bps"), "hasRtt": f("cc_rtt_ewma_ms").unwrap_or(0.0) > 0.0,
+               "ewma": (f("cc_loss_ewma").unwrap_or(0.0) * 1e6) as i64, "deg": b("cc_loss_degraded"),
+               "gated": b("stall_gated"), "gev": i("stall_gate_events"), "pulls": i("silence_pulls"),
+               "cap": i("in_flight_cap_packets"), "capa": b("in_flight_cap_active"), "finite": fin})
+    }
+
+    /// everything the reading control clients were pushed since the last step
+    fn drain_readers(&mut self) -> Vec<Value> {
+        let mut out = Vec::new();
+        let mut got: Vec<(usize, u64, String)> = Vec::new();
+        for (k, r) in self.readers.iter().enumerate() {
+            for (t, line) in r.buf.lock().unwrap().drain(..) {
+                got.push((k, t, line));
+            }
+        }
+        got.sort_by_key(|(k, t, _)| (*t, *k));
+        for (k, t, line) in got {
+            let v: Value = serde_json::from_str(&line).unwrap_or(Value::Null);
+            let data = &v["params"]["data"];
+            let method = v["method"].as_str().unwrap_or("?").to_string();
+            let body = serde_json::to_string(data).unwrap_or_default();
+            let mut o = json!({"slot": k + 1, "t": (t - T0) as i64, "method": method, "psid": v["params"]["subscription_id"].as_str().unwrap_or("?"),
+                               "dg": dig(body.as_bytes()), "open": self.readers[k].open});
+            if method == "stats.update" {
+                self.bump("stats_events_read");
+                if k == 0 {
+                    // the first reader's copy is logged in full, the others' by digest
+                    let links: Vec<Value> = data["links"].as_array().map(|a| a.iter().map(|x| self.link_stats(x)).collect()).unwrap_or_default();
+                    for x in &links {
+                        let l = x["l"].as_i64().unwrap_or(0).clamp(0, 7) as usize;
+                        let share_weak = x["weak"] == json!(true) && (x["reason"] == json!("low_share") || x["reason"] == json!("no_traffic"));
+                        if share_weak {
+                            self.weak_run[l] += 1;
+                            if self.weak_run[l] == 15 { self.bump("stats_weak_runs_of_15"); }
+                        } else {
+                            if self.weak_run[l] >= 15 { self.bump("stats_probations_seen"); }
+                            self.weak_run[l] = 0;
+                        }
+                        if x["reason"] == json!("high_rtt") { self.bump("stats_delay_verdicts"); }
+                        if x["deg"] == json!(true) { self.bump("stats_loss_degraded_samples"); }
+                        if x["weak"] == json!(true) { self.bump("stats_weak_verdicts"); }
+                        if x["gated"] == json!(true) { self.bump("stats_gated_samples"); }
+                        if x["st"] != json!("Bootstrap") { self.bump("stats_cc_seeded_samples"); }
+                        if x["nak"].as_i64().unwrap_or(0) > 0 { self.bump("stats_nak_counted_samples"); }
+                    }
+                    o["st"] = json!({"mode": data["mode"].as_str().unwrap_or("?"), "active": data["active_links"].as_i64().unwrap_or(-1),
+                                     "total": data["total_links"].as_i64().unwrap_or(-1), "tw": data["total_window"].as_i64().unwrap_or(-1),
+                                     "tif": data["total_in_flight"].as_i64().unwrap_or(-1), "links": links});
+                }
+            } else if method == "priority.window.update" {
+                self.bump("side_events_read");
+                o["k"] = json!(data["k"].as_i64().unwrap_or(-1));
+            }
+            out.push(o);
+        }
+        out
     }
 
     fn link_of(&self, a: &SocketAddr) -> usize {
@@ -283,11 +407,103 @@ impl LoopSim {
             "data" if self.registered[link] == Some(src) => {
                 if let Some(s) = get_srt_sequence_number(b) {
                     self.rx_count += 1;
+                    if self.profile == "busy" && self.n >= 2 && link + 1 == self.n && now > T0 + 6_000 && now < T0 + 36_000 {
+                        // a lossy uplink: for half a minute the receiver reports every packet it carries as lost
+                        // (its window collapses, its share of the stream falls far below fair share, its loss
+                        // average stays high), then it is clean again
+                        let mut q = vec![0u8; 20];
+                        q[0..2].copy_from_slice(&SRT_TYPE_NAK.to_be_bytes());
+                        q[16..20].copy_from_slice(&s.to_be_bytes());
+                        self.pending.push_back(Reply { at, link, to: src, bytes: q });
+                        self.bump("lossy_link_reports");
+                        return;
+                    }
                     self.rx_seqs.insert(s);
                     self.ack_buf[link].push(s);
                     if self.ack_buf[link].len() >= 10 {
                         let l: Vec<u32> = self.ack_buf[link].drain(..).collect();
                         replies.push(create_ack_packet(&l).to_vec());
+                    }
+                    if self.profile == "nak" {
+                        // (copies are counted over the whole run: a retransmission may come much later)
+                        *self.rx_copies.entry(s).or_insert(0) += 1;
+                        if !self.recent_rx.iter().any(|e| e.0 == s) {
+                            self.recent_rx.push_back((s, link, 1));
+                        }
+                        while self.recent_rx.len() > 12 {
+                            self.recent_rx.pop_front();
+                        }
+                        if self.rx_count % 7 == 3 {
+                            // a loss report: for numbers this receiver got exactly once a moment ago (so that exactly one
+                            // uplink holds them, unless an ACK has retired them meanwhile), or never got at all
+                            self.nak_ctr += 1;
+                            let once: Vec<(u32, usize)> =
+                                self.recent_rx.iter().filter(|e| self.rx_copies.get(&e.0) == Some(&1)).map(|e| (e.0, e.1)).collect();
+                            let pick = |k: usize| once.get(once.len().saturating_sub(1 + k)).copied();
+                            let mut list: Vec<u32> = Vec::new();
+                            let mut via = link;
+                            match self.nak_ctr % 7 {
+                                0 => list.extend(pick(0).map(|x| x.0)),
+                                1 => list.extend(pick(3).map(|x| x.0)),
+                                2 => {
+                                    // a range whose members were each received once
+                                    if let (Some(a), Some(b)) = (pick(2), pick(0)) {
+                                        if a.0 < b.0 && b.0 - a.0 <= 4 && (a.0..=b.0).all(|q| once.iter().any(|e| e.0 == q)) {
+                                            list.push(a.0 | 0x8000_0000);
+                                            list.push(b.0);
+                                            self.bump("nak_ranges");
+                                        } else {
+                                            list.push(b.0);
+                                        }
+                                    }
+                                }
+                                3 => {
+                                    // the same number twice in one report
+                                    if let Some(a) = pick(1) {
+                                        list.push(a.0);
+                                        list.push(a.0);
+                                        self.bump("nak_repeats");
+                                    }
+                                }
+                                4 => {
+                                    list.push(s + 50_000); // never sent
+                                    self.bump("nak_unknown");
+                                }
+                                5 => {
+                                    // the report comes back on another uplink than the one that carried the packet
+                                    if let Some(a) = pick(0) {
+                                        list.push(a.0);
+                                        if let Some(o) = (0..self.n).find(|o| *o != a.1 && self.registered[*o].is_some() && self.path[*o] == Path::Up) {
+                                            via = o;
+                                            self.bump("nak_via_other_link");
+                                        }
+                                    }
+                                }
+                                _ => {
+                                    // one number, reported again in the next report
+                                    if let Some(a) = pick(0) {
+                                        list.push(a.0);
+                                        if let Some(b) = pick(4) {
+                                            list.push(b.0);
+                                        }
+                                    }
+                                }
+                            }
+                            if !list.is_empty() {
+                                let mut q = vec![0u8; 16 + 4 * list.len()];
+                                q[0..2].copy_from_slice(&SRT_TYPE_NAK.to_be_bytes());
+                                for (k, x) in list.iter().enumerate() {
+                                    q[16 + 4 * k..20 + 4 * k].copy_from_slice(&x.to_be_bytes());
+                                }
+                                if via == link {
+                                    replies.push(q);
+                                } else if let Some(to) = self.registered[via] {
+                                    let at2 = now + self.rtt[via];
+                                    self.pending.push_back(Reply { at: at2, link: via, to, bytes: q });
+                                }
+                                self.bump("nak_reports");
+                            }
+                        }
                     }
                     if self.rx_count % 16 == 0 {
                         // SRT-level traffic for the client: a cumulative ACK, now and then a NAK or other control
@@ -296,7 +512,7 @@ impl LoopSim {
                         p[0..2].copy_from_slice(&SRT_TYPE_ACK.to_be_bytes());
                         p[16..20].copy_from_slice(&top.to_be_bytes());
                         replies.push(p);
-                        if self.rx_count % 64 == 0 && self.profile != "acct" {
+                        if self.rx_count % 64 == 0 && self.profile != "acct" && self.profile != "nak" {
                             let mut q = vec![(self.rx_count >> 3 & 0xff) as u8; 24];
                             q[0..2].copy_from_slice(&SRT_TYPE_NAK.to_be_bytes());
                             q[16..20].copy_from_slice(&top.saturating_sub(3).to_be_bytes());
@@ -401,6 +617,7 @@ impl LoopSim {
             cl.push(json!({"len": k, "dig": dig(&buf[..k]), "cls": cls_of(&buf[..k])}));
             self.bump("client_deliveries");
         }
+        line["pub"] = json!(self.drain_readers());
         line["t"] = json!((now - T0) as i64);
         line["wire"] = json!(wire);
         line["rx"] = json!(rx);
@@ -464,6 +681,11 @@ impl Engine for LoopSim {
         self.last_ack_rx = 0;
         self.last_ka = vec![0; self.n];
         self.seen_digs.clear();
+        self.recent_rx.clear();
+        self.rx_copies.clear();
+        self.nak_ctr = 0;
+        self.weak_run = [0; 8];
+        self.guard_phase = 0;
         self.config = srtla_send::DynamicConfig::new();
         if cfg.get("classic").and_then(Value::as_bool).unwrap_or(false) {
             self.config.set_mode(SchedulingMode::Classic);
@@ -484,12 +706,23 @@ impl Engine for LoopSim {
                 srtla_core::verif::set_clock_fn(Some(vnow));
                 // the local SRT port is picked by binding port 0 and releasing it; another process may grab it in
                 // between (parallel checks), in which case the loop returns at once with a bind error: try again
+                let mut subs: Vec<Value> = Vec::new();
                 for attempt in 0..8 {
                     self.srt_port = StdUdp::bind("[::]:0").and_then(|s| s.local_addr()).map(|a| a.port()).expect("free port");
                     let (path, rport, port, config) = (self.ips_path(), self.rport, self.srt_port, self.config.clone());
                     self.taps.lock().unwrap().clear();
                     let binder: Arc<dyn UplinkBinder> = Arc::new(TapBinder { taps: self.taps.clone() });
                     let hub = srtla_send::subscriptions::SubscriptionHub::new();
+                    for r in self.readers.drain(..) {
+                        r.task.abort();
+                    }
+                    self.hub = Some(hub.clone());
+                    subs.clear();
+                    // a control client that reads every stats line the loop publishes
+                    subs.push(self.subscribe_reader("stats"));
+                    if self.profile == "stalledsub" {
+                        subs.push(self.subscribe_reader("priority.window"));
+                    }
                     self.stalled_subs.clear();
                     if self.profile == "stalledsub" {
                         // two connected control clients that never read: queues of 1 and 2 lines, on `stats` (published
@@ -545,7 +778,26 @@ impl Engine for LoopSim {
                 line["mode"] = json!(if self.config.mode().is_classic() { "classic" } else { "enhanced" });
                 line["timeout"] = json!(self.timeout_ms);
                 line["profile"] = json!(self.profile.clone());
+                line["subs"] = json!(subs);
                 line["d"] = json!(0);
+            }
+            "Sub" => {
+                let o = self.subscribe_reader(gets(ev, "topic"));
+                line["slot"] = o["slot"].clone();
+                line["sid"] = o["sid"].clone();
+                line["topic"] = o["topic"].clone();
+                line["d"] = json!(0);
+            }
+            "Unsub" => {
+                let k = geti(ev, "slot") as usize - 1;
+                let hub = self.hub.clone().expect("hub");
+                let sid = self.readers[k].sid.clone();
+                let was = self.rt.block_on(async move { hub.unsubscribe(&sid).await });
+                self.readers[k].open = false;
+                line["slot"] = json!(k + 1);
+                line["was"] = json!(was);
+                line["d"] = json!(0);
+                self.bump("subscriptions_closed");
             }
             "Advance" => {
                 let d = geti(ev, "d") as u64;
@@ -705,6 +957,19 @@ impl Engine for LoopSim {
                 return Some(json!({"ev": "SetPath", "l": victim + 1, "p": p}));
             }
             if let Some(t0) = self.victim_down_at {
+                // dense runs: once the victim's backlog has gone stale (the stall guard has it latched) the guard is
+                // switched off for a few seconds, then on again
+                if self.dense && !self.victim_repaired {
+                    if self.guard_phase == 0 && now > t0 + 3_400 {
+                        self.guard_phase = 1;
+                        self.bump("guard_switched_off_mid_outage");
+                        return Some(json!({"ev": "SetCfg", "guard": false}));
+                    }
+                    if self.guard_phase == 1 && now > t0 + 7_000 {
+                        self.guard_phase = 2;
+                        return Some(json!({"ev": "SetCfg", "guard": true}));
+                    }
+                }
                 // the outage lasts in virtual time (long enough for the configured timeout to expire and a few retries to
                 // be made), whatever number of steps the dense phase consumed; the step bound is only a backstop
                 if !self.victim_repaired
@@ -796,6 +1061,15 @@ impl Engine for LoopSim {
                 return Some(json!({"ev": "Advance", "d": d.max(1)}));
             }
         }
+        if self.profile == "stalledsub" && now > T0 + 7_000 && rng.random_range(0..40) == 0 {
+            // control clients come and go (the first two stay for the whole run)
+            let open: Vec<usize> = (2..self.readers.len()).filter(|k| self.readers[*k].open).collect();
+            if open.len() < 3 && (open.is_empty() || rng.random_range(0..2) == 0) && self.readers.len() < 40 {
+                return Some(json!({"ev": "Sub", "topic": if rng.random_range(0..3) == 0 { "priority.window" } else { "stats" }}));
+            } else if !open.is_empty() {
+                return Some(json!({"ev": "Unsub", "slot": open[rng.random_range(0..open.len())] + 1}));
+            }
+        }
         if self.idle_left > 0 {
             self.idle_left -= 1;
             let d = rng.random_range(150..700);
@@ -804,6 +1078,20 @@ impl Engine for LoopSim {
                 _ => d,
             };
             return Some(json!({"ev": "Advance", "d": d.max(1)}));
+        }
+        if self.profile == "busy" {
+            // a steady stream well above the classifier's throughput floor, for a long while
+            if rng.random_range(0..2) == 0 {
+                let d = rng.random_range(5..36);
+                let d = match self.pending.iter().map(|r| r.at).min() {
+                    Some(at) if at > now => d.min(at - now),
+                    _ => d,
+                };
+                return Some(json!({"ev": "Advance", "d": d.max(1)}));
+            }
+            let s = self.next_seq;
+            self.next_seq += 1;
+            return Some(json!({"ev": "Client", "kind": "data", "seq": s, "len": 1332}));
         }
         let r = rng.random_range(0..1000);
         if !outage && rng.random_range(0..250) == 0 {
@@ -853,7 +1141,10 @@ impl Engine for LoopSim {
         let (kind, seq) = if kindr < 8 {
             ("ctrl", 0)
         } else if kindr < 14 && self.next_seq > 5010 {
-            ("rexmit", self.next_seq - 1 - rng.random_range(0..10))
+            // (under the nak schedule only numbers the receiver will not report any more: what a retransmission
+            // racing a loss report does to the attribution is not observable from outside)
+            let back = if self.profile == "nak" { rng.random_range(20..40) } else { rng.random_range(0..10) };
+            ("rexmit", self.next_seq.saturating_sub(1 + back).max(5000))
         } else {
             let s = self.next_seq;
             self.next_seq += 1;
